@@ -199,6 +199,16 @@ pub enum FOp {
     Clear,
     DropMap,
     GetManyMut(u32, u32),
+    /// dst.extend(src) where src is another hashbrown map consumed by value (two-collection interaction)
+    ExtendFromIntoIter(Vec<u32>),
+    /// dst.extend(src.drain())
+    ExtendFromDrain(Vec<u32>),
+    /// into_iter().for_each / into_keys().fold / into_values().for_each with a closure that may panic
+    IntoIterForEach(u8),
+    /// drain().for_each with a closure that may panic
+    DrainForEach,
+    /// extract_if whose predicate panics; the same ExtractIf object is then driven on to exhaustion
+    ExtractIfResume(u64),
 }
 
 impl FOp {
@@ -231,6 +241,11 @@ impl FOp {
             FOp::Clear => "clear",
             FOp::DropMap => "drop",
             FOp::GetManyMut(..) => "get_many_mut",
+            FOp::ExtendFromIntoIter(_) => "extend(from into_iter)",
+            FOp::ExtendFromDrain(_) => "extend(from drain)",
+            FOp::IntoIterForEach(_) => "into_iter.for_each",
+            FOp::DrainForEach => "drain.for_each",
+            FOp::ExtractIfResume(_) => "extract_if resumed after panic",
         }
     }
     /// operations that insert at most one element (the "contents unchanged when growing" clause applies)
@@ -426,6 +441,80 @@ fn apply<K: Elem, V: Elem>(op: &FOp, d: &mut MapDrv<K, V>, other: &mut Option<Ma
         FOp::GetManyMut(a, b) => {
             let _ = map.get_many_mut([&KeyRef(*a), &KeyRef(*b)]);
         }
+        FOp::ExtendFromIntoIter(ids) | FOp::ExtendFromDrain(ids) => {
+            // the source is another hashbrown map on its own allocator instance
+            let mut src: Map<K, V> = Map::with_hasher_in(PlanBH::new(bh.plan, bh.salt ^ 0x5555), crate::ckalloc::CkAlloc { id: 8 });
+            for id in ids {
+                src.insert(K::make(*id, 7), V::make(1, 7));
+            }
+            if matches!(op, FOp::ExtendFromIntoIter(_)) {
+                map.extend(src);
+            } else {
+                map.extend(src.drain());
+                // the drained source must be an empty, usable map
+                crate::check!(src.is_empty(), "extend(src.drain()): the source is not empty afterwards");
+                src.insert(K::make(0, 7), V::make(0, 7));
+            }
+        }
+        FOp::IntoIterForEach(which) => {
+            let old = std::mem::replace(map, Map::with_hasher_in(bh, CkAlloc));
+            match which % 3 {
+                0 => old.into_iter().for_each(|(k, v)| {
+                    fuse::tick(Class::Closure);
+                    k.check();
+                    v.check();
+                }),
+                1 => {
+                    let n = old.into_keys().fold(0usize, |n, k| {
+                        fuse::tick(Class::Closure);
+                        k.check();
+                        n + 1
+                    });
+                    let _ = n;
+                }
+                _ => old.into_values().for_each(|v| {
+                    fuse::tick(Class::Closure);
+                    v.check();
+                }),
+            }
+        }
+        FOp::DrainForEach => {
+            map.drain().for_each(|(k, v)| {
+                fuse::tick(Class::Closure);
+                k.check();
+                v.check();
+            });
+        }
+        FOp::ExtractIfResume(salt) => {
+            let seen = std::cell::RefCell::new(Vec::<u32>::new());
+            {
+                let mut it = map.extract_if(|k, _| {
+                    seen.borrow_mut().push(k.id());
+                    fuse::tick(Class::Closure);
+                    pred(*salt, k.id())
+                });
+                loop {
+                    match catch(|| it.next()) {
+                        Ok(Some((k, v))) => {
+                            k.check();
+                            v.check();
+                        }
+                        Ok(None) => break,
+                        Err(p) => {
+                            if !is_injected(&p) {
+                                std::panic::resume_unwind(p);
+                            }
+                            // the predicate panicked: keep driving the very same ExtractIf object
+                        }
+                    }
+                }
+            }
+            let mut ids = seen.into_inner();
+            let n = ids.len();
+            ids.sort();
+            ids.dedup();
+            crate::check!(ids.len() == n, "extract_if resumed after a predicate panic offered {} element(s) to the predicate a second time", n - ids.len());
+        }
     }
 }
 
@@ -455,7 +544,7 @@ fn pick_op<K: Elem, V: Elem>(rng: &mut Rng, d: &MapDrv<K, V>) -> FOp {
     };
     let cap = d.map.capacity();
     let len = d.map.len();
-    match rng.below(31) {
+    match rng.below(37) {
         0..=4 => FOp::Insert(any(rng)),
         5 => FOp::TryInsert(any(rng)),
         6 => FOp::EntryOrInsert(any(rng)),
@@ -487,6 +576,11 @@ fn pick_op<K: Elem, V: Elem>(rng: &mut Rng, d: &MapDrv<K, V>) -> FOp {
                 FOp::DropMap
             }
         }
+        31 => FOp::ExtendFromIntoIter((0..rng.below(6) + 1).map(|_| any(rng)).collect()),
+        32 => FOp::ExtendFromDrain((0..rng.below(6) + 1).map(|_| any(rng)).collect()),
+        33 => FOp::IntoIterForEach(rng.below(3) as u8),
+        34 => FOp::DrainForEach,
+        35 => FOp::ExtractIfResume(rng.next()),
         _ => {
             let a = present(rng);
             let mut b = any(rng);
@@ -501,11 +595,13 @@ fn pick_op<K: Elem, V: Elem>(rng: &mut Rng, d: &MapDrv<K, V>) -> FOp {
 /// Builds the clone_from target for `CloneFrom(kind)`: 0 unallocated, 1 same buckets, 2 larger, 3 smaller with tombstones.
 fn build_other<K: Elem, V: Elem>(kind: u8, d: &MapDrv<K, V>) -> Map<K, V> {
     let bh = d.bh;
+    // the target lives on its own allocator instance
+    let other_alloc = crate::ckalloc::CkAlloc { id: 9 };
     let mut t: Map<K, V> = match kind {
-        0 => Map::with_hasher_in(bh, CkAlloc),
-        1 => Map::with_capacity_and_hasher_in(d.map.capacity(), bh, CkAlloc),
-        2 => Map::with_capacity_and_hasher_in(d.map.capacity() * 4 + 8, bh, CkAlloc),
-        _ => Map::with_capacity_and_hasher_in(3, bh, CkAlloc),
+        0 => Map::with_hasher_in(bh, other_alloc),
+        1 => Map::with_capacity_and_hasher_in(d.map.capacity(), bh, other_alloc),
+        2 => Map::with_capacity_and_hasher_in(d.map.capacity() * 4 + 8, bh, other_alloc),
+        _ => Map::with_capacity_and_hasher_in(3, bh, other_alloc),
     };
     if kind != 0 {
         let n = (t.capacity().min(20)) as u32;
@@ -668,7 +764,7 @@ fn one_fault<K: Elem, V: Elem>(c: &mut Ctx, spec: &StateSpec, op: &FOp, class: C
     let what = format!("{} fuse ({},{}) [{}x{} {} {:?}]", op.kind(), class.name(), k, K::NAME, V::NAME, spec.plan.name(), spec.recipe);
     match &r {
         Ok(()) => {
-            if fired {
+            if fired && !matches!(op, FOp::ExtractIfResume(_)) {
                 crate::viol!("{}: the injected panic was swallowed by the library", what);
             }
         }
@@ -739,7 +835,7 @@ fn one_fault<K: Elem, V: Elem>(c: &mut Ctx, spec: &StateSpec, op: &FOp, class: C
         }
         c.bump("grow_hash_panic_contents_checked");
     }
-    if fired && !matches!(op, FOp::DropMap) && !matches!(op, FOp::CloneFrom(_)) {
+    if fired && !matches!(op, FOp::DropMap | FOp::CloneFrom(_) | FOp::IntoIterForEach(_)) {
         // every element that is still present must be an original (or carry the operation's own marker gen 7)
         for e in &post {
             let orig = pre.iter().any(|p| p.0 == e.0 && p.1 == e.1);
